@@ -4,11 +4,13 @@ stdout. Separate executable so that a translator failure in one slice cannot bre
 -/
 import S4V.Model.Wire
 import S4V.Drv.Walk
+import S4V.Drv.WalkTar
 
 open S4V.Model.Wire
 
 def step (line : String) : String :=
   match words line with
+  | "walk" :: "tar" :: rest => S4V.Drv.WalkTar.stepWalkTar rest
   | "walk" :: rest => S4V.Drv.Walk.stepWalk rest
   | _ => "bad-op"
 
